@@ -423,6 +423,57 @@ async def run_overlap(chk, rng, lines, impl):
         await a.finish()
 
 
+async def run_rotation(chk, rng):
+    """histories: the account's stored credentials change (password rotated, old one kept as secondary or not, account
+    deleted, nothing) between a successful login and a COM_CHANGE_USER for the same name on the same connection; a proof is
+    accepted iff it fits what the identity provider holds NOW"""
+    cas = NativePasswordAuthPlugin.create_auth_string
+    pw1, pw2 = rng.sample(PW, 2)
+    users = {"bob": User("bob", cas(pw1), "mysql_native_password"), "amy": User("amy", cas(pw2), "mysql_native_password")}
+    s = RawSession()
+    srv = mkserver([s], identity_provider=IDP([NativePasswordAuthPlugin()], users))
+    a = Peer(srv)
+    await a.greet()
+    if not a.greeting:
+        await a.finish()
+        return
+    nonce = a.greeting["auth_data"][:20]
+    await a.send(pkt(1, hs_response("bob", auth=scramble(pw1.encode(), nonce), plugin="mysql_native_password")))
+    o = a.take()
+    if not (o and o[-1][1][:1] == b"\x00"):
+        chk.fail("correct password refused", dict(route="rotation", step="login"))
+        await a.finish()
+        return
+    hops = rng.randrange(0, 3)
+    for _ in range(hops):      # optional successful re-authentications before the change
+        who, pw = rng.choice([("bob", pw1), ("amy", pw2)])
+        await a.send(pkt(0, com_change_user(who.encode(), scramble(pw.encode(), nonce), b"db", plugin=b"mysql_native_password")))
+        a.take()
+    change = rng.choice(["rotate", "rotate", "rotate_keep_old", "delete", "none", "to_nopw"])
+    if change == "rotate":
+        users["bob"] = User("bob", cas(pw2), "mysql_native_password")
+    elif change == "rotate_keep_old":
+        users["bob"] = User("bob", cas(pw2), "mysql_native_password", old_auth_string=cas(pw1))
+    elif change == "delete":
+        del users["bob"]
+    elif change == "to_nopw":
+        users["bob"] = User("bob", None, "mysql_native_password")
+    proof = rng.choice(["pw1", "pw2", "empty"])
+    resp = {"pw1": scramble(pw1.encode(), nonce), "pw2": scramble(pw2.encode(), nonce), "empty": b""}[proof]
+    await a.send(pkt(0, com_change_user(b"bob", resp, b"db", plugin=b"mysql_native_password")))
+    outs = [classify(p) for _, p in a.take()]
+    final = outs[-1] if outs else "none"
+    want = {"rotate": proof == "pw2", "rotate_keep_old": proof in ("pw1", "pw2"), "delete": False, "none": proof == "pw1",
+            "to_nopw": proof == "empty"}[change]
+    chk.case(("rotation", change, proof, hops), nontrivial=True,
+             sample=dict(route="rotation", change=change, proof=proof, packets=outs) if rng.random() < 0.02 else None)
+    chk.count("rotation:" + change)
+    if (final == "ok") != want:
+        chk.fail("acceptance does not follow the account's current credentials", dict(route="login, credentials changed, COM_CHANGE_USER",
+                 change=change, proof_for=proof, reauthentications_before=hops, packets=outs, reference_accepts=want))
+    await a.finish()
+
+
 async def login_default(a, plugins, greet_data):
     d = plugins[0]
     if d.name == "mysql_native_password":
@@ -511,6 +562,8 @@ def main():
             await run_case(chk, rng, lines, impl, sha_lines, sha_impl)
         for k in range(120 if not chk.thorough else 12000):
             await run_overlap(chk, rng, lines, impl)
+        for k in range(150 if not chk.thorough else 8000):
+            await run_rotation(chk, rng)
 
     asyncio.run(go())
     verify_unit(chk, rng, 12 if not chk.thorough else 300)
